@@ -129,6 +129,10 @@ def execute(ctx, text, rname, opts, form, source, depth_known=None, tmpdir=None)
                       exception=repr(e), traceback=mt.tb_text(e))
         return
     dt = time.process_time() - t0
+    if dt > 0.25:
+        ctx.slow = getattr(ctx, 'slow', [])
+        ctx.slow.append((round(dt, 3), rname, source, len(text), text[:80]))
+        ctx.slow = sorted(ctx.slow, reverse=True)[:5]
     kb = (len(text) + 1023) // 1024
     key = 'max_cpu_ms_le_%dKB' % max(1, kb)
     if dt * 1000 > ctx.counters['cpu'].get(key, 0):
@@ -283,6 +287,7 @@ def run(ctx):
         for fn in os.listdir(tmpdir):
             os.remove(os.path.join(tmpdir, fn))
         os.rmdir(tmpdir)
+    return {'slowest': getattr(ctx, 'slow', [])}
 
 
 # witnesses of repaired defects (see known_findings.json "fixed" entries) and other fixed regression inputs
@@ -309,7 +314,8 @@ def finalize(m, tier):
                 'option sets, in str/list/file supply forms. evaluations = executions (input x configuration); distinct_nontrivial '
                 '= distinct input texts containing at least one Markdown-significant character',
         'inconclusive': inconclusive,
-        'extra': {'outcomes': m.c('outcome'), 'executions_by_renderer_config': len(rend)},
+        'extra': {'outcomes': m.c('outcome'), 'executions_by_renderer_config': len(rend),
+                  'slowest_executions(cpu_s,renderer,source,len,text)': sorted([x for e in m.extra for x in e.get('slowest', [])], reverse=True)[:8]},
     }
 
 
